@@ -699,6 +699,21 @@ func (w *world) reorg(depth, newLen int) {
 	w.tags["reorg"]++
 }
 
+// prune: the REAL shovel.PruneTask (main runs it every ten minutes next to the tasks): per (source,
+// integration) only the n newest recorded positions are kept
+func (w *world) prune(n int) string {
+	out := core.Protect(func() string {
+		if err := shovel.PruneTask(w.ctx, w.pool, n); err != nil {
+			return "err"
+		}
+		return w.digest()
+	})
+	w.ops = append(w.ops, fmt.Sprintf("w-prune %d", n))
+	w.outs = append(w.outs, out)
+	w.tags["prune"]++
+	return out
+}
+
 // withinOracle: no row of t lies beyond its recorded position or outside (lo, stop]
 func (w *world) withinOracle(t *wTask, lo uint64) string {
 	rows, top, has, _ := w.taskRows(t)
